@@ -70,9 +70,17 @@ func (s *Stmt) text(st Style, expand bool) string {
 		s.limit(&b, st)
 		return b.String()
 	}
-	b.WriteString(st.word("select") + " ")
+	// the short form `where ...` (accepted by the parser and used by the library's own tests,
+	// though not part of the documented grammar) stands for `select * where ...`; it is only
+	// generated without ORDER BY / GROUP BY, whose field names it does not define
+	short := s.Star && len(s.OrderBy) == 0 && len(s.GroupBy) == 0 && st.R != nil && st.R.Chance(1, 3)
+	if !short {
+		b.WriteString(st.word("select") + " ")
+	}
 	if s.Star {
-		b.WriteString("*")
+		if !short {
+			b.WriteString("*")
+		}
 	} else {
 		for i, f := range s.Fields {
 			if i > 0 {
@@ -84,7 +92,10 @@ func (s *Stmt) text(st Style, expand bool) string {
 			}
 		}
 	}
-	b.WriteString(" " + st.word("where") + " " + pr(s.Where))
+	if !short {
+		b.WriteString(" ")
+	}
+	b.WriteString(st.word("where") + " " + pr(s.Where))
 	if len(s.GroupBy) > 0 {
 		b.WriteString(" " + st.word("group") + " " + st.word("by") + " " + strings.Join(s.GroupBy, ", "))
 	}
